@@ -328,6 +328,51 @@ def tie_to_fit(rec, rng, cid):
     return h
 
 
+def fitted_object(rec, rng, cid):
+    """the hash of an object that has been fitted before is still a pure
+    function of the current data and settings"""
+    spec, idnt = base_curve(rng)
+    ctx = settings_context(rng, spec)
+    ctx.pop("optimal_fit_edelta", None)
+    ctx.pop("optimal_fit_num_samples", None)
+    p = gen.nanite_params(spec["model"])
+    p["contact_point"].value = 1e-7
+    ctx["params_initial"] = p
+    case = {"id": cid, "class": "fitted-object", "curve": spec,
+            "context": ctx}
+    idnt.fit_model(**copy.deepcopy(ctx))
+    h0 = idnt.fit_properties["hash"]
+    # (a) same values, fitted object vs fresh object
+    fresh = fitlab.build_curve(spec)[0]
+    rec.evaluated(dg=("fitted-equal", spec, ctx))
+    rec.event("must-be-equal pairs")
+    rec.event("hashes of previously fitted objects")
+    rec.check(H(idnt) == H(fresh, **copy.deepcopy(ctx)) == h0,
+              "differs/fitted-vs-fresh-object",
+              "IndentationFitter(fitted curve).hash %s, fresh curve with "
+              "the same settings %s, fit hash %s"
+              % (H(idnt), H(fresh, **copy.deepcopy(ctx)), h0), case)
+    # (b) one data sample changed on the fitted object
+    col = ["force", "tip position"][int(rng.integers(2))]
+    j = int(rng.integers(len(idnt)))
+    v = np.array(idnt[col], copy=True)
+    v[j] = np.nextafter(v[j], np.inf)
+    idnt[col] = v
+    fresh[col] = v.copy()
+    rec.evaluated(dg=("fitted-data", spec, ctx, col, j))
+    rec.event("must-differ pairs")
+    rec.event("must-differ data pairs")
+    h1 = H(idnt)
+    rec.check(h1 != h0, "collision/data-change-on-fitted-object",
+              "hash unchanged (%s) after changing sample %d of '%s' on a "
+              "curve that had been fitted before" % (h1, j, col), case)
+    rec.check(h1 == H(fresh, **copy.deepcopy(ctx)),
+              "differs/fitted-vs-fresh-object",
+              "after the data change the fitted object hashes %s, a fresh "
+              "object with the same data and settings %s"
+              % (h1, H(fresh, **copy.deepcopy(ctx))), case)
+
+
 def child_main(path):
     import warnings
     warnings.simplefilter("ignore")
@@ -386,6 +431,8 @@ def run_shard(rec, tier, seed, shard, nshards):
             adversarial(rec, rng, [shard, i])
         else:
             tie_to_fit(rec, rng, [shard, i])
+            fitted_object(rec, core.case_rng(seed, ID, shard, 10 ** 6 + i),
+                          [shard, 10 ** 6 + i])
     if shard < 4:
         cross_process(rec, seed, shard, ids, hashes)
 
@@ -395,5 +442,6 @@ def replay(rec, case):
     cid = c["id"]
     rng = core.case_rng(case["seed"], ID, cid[0], cid[1])
     {"must-differ": pair_differ, "must-be-equal": pair_equal,
-     "adversarial": adversarial, "tie": tie_to_fit}.get(
+     "adversarial": adversarial, "tie": tie_to_fit,
+     "fitted-object": fitted_object}.get(
         c.get("class"), pair_differ)(rec, rng, cid)
